@@ -72,6 +72,13 @@ CHECKS = {
         note="NadarayaWatsonRegressor is only judged with at least one label. Estimator faults are clean failures (raise before mutating).",
         design="4/C15",
     ),
+    "C19": dict(
+        engine="idxsim",
+        technique=TECH + "operation sequences on IndexClassifierWrapper, lock-stepped with an executable reference model (multisets of (index, label, weight) triples + retraining a fresh clone); speed-up on/off twin",
+        text="Seeded operation sequences (construction with un-/pre-fitted classifier and base, precompute, fit, partial_fit from the current or the stored base model, base updates, predictions; label and weight overrides, repeated indices) under all flag combinations are executed on the real wrapper and on a small reference model that keeps the implied multiset of (sample, label, weight) triples (for native partial_fit: the ordered call log). After every prediction the wrapper must agree with a fresh clone of the wrapped classifier trained from scratch on that multiset; state refusals (not fitted, base not set, unknown provenance) must occur exactly when the model predicts them and must leave the wrapper unchanged; for the Parzen window classifier the same sequence with use_speed_up toggled must predict alike.",
+        note="Probabilities to 1e-9 relative; hard predictions only where the top-two margin exceeds it and the wrapped classifier is not in its random fall-back state. Argument-validation refusals (duplicate indices under enforce_unique_samples) end a run; mixed weighted/unweighted calls are not generated (invalid).",
+        design="4/C19",
+    ),
 }
 
 NOT_APPLICABLE = {
